@@ -211,6 +211,7 @@ def main():
                'positive definiteness and frequency invariance are corollaries of the energy form (not queries)')
     run.outside = ['orders above the bound', 'BladeStiff1D with a base (the base is a Panel, decided above; BladeStiff1D never stores hb)', 'BladeStiff2D/TStiff2D are Panels joined by penalty matrices (C12/C13)', 'floating point']
     res = pmap(kprop.job, [(__name__, c) for c in cf])
+    res = kprop.explore_loci(__name__, res, run)      # second pass: the equality loci the executed code branched on
     kprop.handle(run, res, build, 'entries differ from the kinetic-energy Hessian')
     tv = {}
     for model in ('plate', 'plate_w', 'cpanel'):
